@@ -848,6 +848,10 @@ impl<'a> TreeView for ModelView<'a> {
     fn template_contents(&self, h: &Id) -> Option<Id> {
         self.0.nodes.borrow()[*h].tmpl
     }
+    fn shadow_roots(&self, h: &Id) -> Vec<Id> {
+        let nodes = self.0.nodes.borrow();
+        self.0.shadow_hosts.borrow().iter().filter(|(host, _)| host == h).filter_map(|(_, t)| nodes[*t].tmpl).collect()
+    }
 }
 
 pub fn model_canon(dom: &ModelDom, root: Id, o: crate::sinks::canon::CanonOpts) -> String {
